@@ -27,19 +27,21 @@ import evalstream as es
 
 PID = "C01"
 MANIFEST = {
-    "text": "10 Coq theorems over the evaluator model (explicit Panic outcome for every partial Rust operation on a "
+    "text": "12 Coq theorems over the evaluator model (explicit Panic outcome for every partial Rust operation on a "
             "modelled path): evaluation at any call-depth budget from any configuration whose innermost frame is Owned "
             "never returns Panic and keeps that invariant — for every operator/built-in implementation that does not "
-            "panic itself and every build whose factorial does not overflow; hypotheses discharged for the transcribed "
-            "operators (26 ops x 3 broadcasting arms: no list[idx] out of range, no unreachable!() arm reached), the "
-            "built-ins transcribed on this branch (arity check precedes every args[i]; arities regenerated from the built "
-            "crate) and the release build; whole programs (statement loop) never panic; the debug-build factorial overflow "
-            "is characterised exactly (n >= 2^64) and refuted by witness.  PARTIAL: built-ins transcribed on other branches "
-            "are Unmodelled here (C01_builtin_call_no_panic_full kept as a Definition); parser, formatter, printer, JSON "
-            "and error-rendering stages and all error spans are library/string code decided by SEARCH: per-stage "
-            "catch_unwind harness on release+debug builds and exit status of the real binary over grammar-generated "
-            "(nesting <= 64), corpus-mutated, raw UTF-8, every built-in x boundary-pool tuples (arity -1..+2), JSON "
-            "inputs incl. __blots_function objects, unit identifiers; crashes classified by (stage, file, message class)",
+            "panic itself; hypotheses discharged for the transcribed operators (26 ops x 3 broadcasting arms: no "
+            "list[idx] out of range, no unreachable!() arm reached), the built-ins wired into the model (arity check "
+            "precedes every args[i]; arities regenerated from the built crate) and the factorial, for BOTH overflow "
+            "semantics; whole programs (statement loop) never panic; the 24 list/string/record arms of BuiltinsList.v "
+            "never panic after the arity check (callback ones under a panic-free callback, text ones for every oracle).  "
+            "PARTIAL: 29 of 72 built-ins have no transcribed arm (C01_builtin_call_no_panic_full kept as a Definition); "
+            "parser, formatter, printer, JSON and error-rendering stages and all error spans are library/string code "
+            "decided by SEARCH: per-stage catch_unwind harness on release+debug builds and exit status of the real "
+            "binary over grammar-generated (nesting <= 64), corpus-mutated, raw UTF-8, every built-in x boundary-pool "
+            "tuples (arity -1..+2), JSON inputs incl. __blots_function objects, unit identifiers; crashes classified by "
+            "(stage, file, message class); 7 crash/hang classes found on the original tree, all fixed in /repo now and "
+            "kept as regression inputs",
     "note": "trusted: Coq kernel + vm_compute; transcription of evaluate_ast / FunctionDef::call / evaluate_binary_op_ast "
             "(validated by the EVAL correspondence in both overflow semantics); the search half is testing, not proof; "
             "resource exhaustion (allocation failure under a 12 GiB address-space cap, stack overflow beyond nesting 64) "
@@ -409,12 +411,19 @@ def main(argv):
     jobs = []          # (stream, case, fmt)
     per = 60 if quick else 600
     bystream = {}
+    per_class = {}
     for name, cs, row in all_cases:
         if cs["kind"] == "U":
             continue
-        interesting = any(parse_events(o) for o in row.values())
+        evs = [e for o in row.values() for e in parse_events(o)]
+        interesting = False
+        for e in evs:               # at most 12 inputs per crash class go to the real binary
+            k = class_key(e)
+            if per_class.get(k, 0) < 12:
+                per_class[k] = per_class.get(k, 0) + 1
+                interesting = True
         bystream.setdefault(name, [0])
-        if interesting or name == "CORPUS" or bystream[name][0] < per:
+        if interesting or name == "CORPUS" or (not evs and bystream[name][0] < per):
             if not interesting and name != "CORPUS":
                 bystream[name][0] += 1
             jobs.append((name, cs, False))
